@@ -286,7 +286,7 @@ pub fn gen_case(t: &mut Tape, c16: bool) -> HeadCase {
             // a transfer coding other than chunked is just a header the caller wants on the wire
             added.push(("Transfer-Encoding".to_string(), t.pick(&["gzip", "deflate", "x-custom"]).as_bytes().to_vec()));
         } else if suppressed_name {
-            let k = *t.pick(&["cookie", "authorization", "Cookie", "AUTHORIZATION", "connection"]);
+            let k = *t.pick(&["cookie", "authorization", "Cookie", "AUTHORIZATION", "connection", "expect", "Expect"]);
             let v = gen_special_value(t, &k.to_ascii_lowercase());
             added.push((k.to_string(), v));
         } else {
